@@ -1281,4 +1281,74 @@ pub proof fn lemma_sameday_consumed(l0: Seq<AcquisitionLot>, l1: Seq<Acquisition
     rsum_ext(l1, l0, f_pos_avail_before(d), f_pos_avail_before(d));
 }
 
+
+// ---------- INV_RES: the shares a day needs for its own disposals are never claimed by earlier disposals (C01) ----------
+pub open spec fn rmax(a: real, b: real) -> real { if a >= b { a } else { b } }
+pub open spec fn is_buy_on(txs: Seq<GbpTransaction>, k: int, x: int, t: Seq<char>) -> bool { 0 <= k < txs.len() && txs[k].operation is Buy && txs[k].ticker@ == t && txs[k].date.d() == x }
+pub open spec fn f_claim_on(fc: Map<usize, Decimal>, txs: Seq<GbpTransaction>, x: int, t: Seq<char>) -> spec_fn(int) -> real {
+    |k: int| if is_buy_on(txs, k, x, t) { fc_get(fc, k as usize) } else { 0real }
+}
+/// shares of the purchases of t on day x already claimed by earlier disposals (30-day rule), in the purchases' own units
+pub open spec fn claims_on(fc: Map<usize, Decimal>, txs: Seq<GbpTransaction>, x: int, t: Seq<char>) -> real { isum(txs.len() as int, f_claim_on(fc, txs, x, t)) }
+pub open spec fn f_free_on(fc: Map<usize, Decimal>, txs: Seq<GbpTransaction>, x: int, t: Seq<char>) -> spec_fn(int) -> real {
+    |k: int| if is_buy_on(txs, k, x, t) { buy_qty(txs[k]) - fc_get(fc, k as usize) } else { 0real }
+}
+/// shares of the purchases of t on day x among lines lo..n that no disposal has claimed yet
+pub open spec fn free_upto(fc: Map<usize, Decimal>, txs: Seq<GbpTransaction>, lo: int, n: int, x: int, t: Seq<char>) -> real {
+    isum(n, f_free_on(fc, txs, x, t)) - isum(lo, f_free_on(fc, txs, x, t))
+}
+/// INV_RES: whatever earlier disposals have claimed of day x's purchases leaves enough for day x's own disposals
+pub open spec fn inv_res(fc: Map<usize, Decimal>, txs: Seq<GbpTransaction>) -> bool {
+    forall|x: int, t: Seq<char>| #![trigger claims_on(fc, txs, x, t)] claims_on(fc, txs, x, t) <= rmax(0real, day_buys(txs, x, t) - day_sells(txs, x, t))
+}
+/// what is left of day x's own disposals to be set aside in the current look-ahead
+pub open spec fn res_left(sdr: Map<(int, Seq<char>), Decimal>, txs: Seq<GbpTransaction>, x: int, t: Seq<char>) -> real {
+    if sdr.contains_key((x, t)) { sdr[(x, t)].v() } else { day_sells(txs, x, t) }
+}
+pub proof fn lemma_isum_rsum<T>(s: Seq<T>, n: int, f: spec_fn(T) -> real, g: spec_fn(int) -> real)
+    requires 0 <= n <= s.len(), forall|k: int| 0 <= k < s.len() ==> #[trigger] g(k) == f(s[k])
+    ensures isum(n, g) == rsum(s.take(n), f)
+    decreases n
+{
+    if n == 0 { assert(s.take(0) =~= Seq::<T>::empty()); } else { lemma_isum_rsum(s, n - 1, f, g); rsum_take_step(s, n - 1, f); }
+}
+pub proof fn lemma_day_sells_nonneg(txs: Seq<GbpTransaction>, x: int, t: Seq<char>)
+    requires txs_valid(txs)
+    ensures day_sells(txs, x, t) >= 0real
+{
+    assert forall|i: int| 0 <= i < txs.len() implies f_sell_on(x, t)(#[trigger] txs[i]) >= 0real by { assert(tx_valid(txs[i])); }
+    rsum_nonneg(txs, f_sell_on(x, t));
+}
+/// unclaimed shares of a day, over the whole list: what was bought less what is claimed
+pub proof fn lemma_free_all(fc: Map<usize, Decimal>, txs: Seq<GbpTransaction>, x: int, t: Seq<char>)
+    requires txs.len() <= usize::MAX
+    ensures isum(txs.len() as int, f_free_on(fc, txs, x, t)) == day_buys(txs, x, t) - claims_on(fc, txs, x, t)
+{
+    let n = txs.len() as int;
+    let gb = |k: int| if 0 <= k < txs.len() { f_buy_on(x, t)(txs[k]) } else { 0real };
+    lemma_isum_rsum(txs, n, f_buy_on(x, t), gb);
+    assert(txs.take(n) =~= txs);
+    let neg = |k: int| -f_claim_on(fc, txs, x, t)(k);
+    isum_scale(n, f_claim_on(fc, txs, x, t), neg, -1real);
+    let sum2 = |k: int| gb(k) + neg(k);
+    lemma_isum_add(n, gb, neg, sum2);
+    isum_ext(n, f_free_on(fc, txs, x, t), sum2);
+}
+pub proof fn lemma_isum_add(n: int, f: spec_fn(int) -> real, g: spec_fn(int) -> real, h: spec_fn(int) -> real)
+    requires forall|k: int| 0 <= k < n ==> #[trigger] h(k) == f(k) + g(k)
+    ensures isum(n, h) == isum(n, f) + isum(n, g)
+    decreases n
+{
+    if n > 0 { lemma_isum_add(n - 1, f, g, h); }
+}
+/// the unclaimed shares seen so far never exceed the day's total (claims never exceed a purchase)
+pub proof fn lemma_free_mono(fc: Map<usize, Decimal>, txs: Seq<GbpTransaction>, lo: int, n: int, x: int, t: Seq<char>)
+    requires 0 <= lo <= n <= txs.len() <= usize::MAX, fc_capped(fc, txs)
+    ensures 0real <= free_upto(fc, txs, lo, n, x, t) <= isum(txs.len() as int, f_free_on(fc, txs, x, t))
+{
+    let f = f_free_on(fc, txs, x, t);
+    assert forall|k: int| 0 <= k < txs.len() implies #[trigger] f(k) >= 0real by { if is_buy_on(txs, k, x, t) { assert(fc_get(fc, k as usize) <= buy_qty(txs[k])); } }
+    isum_mono(lo, n, f); isum_mono(n, txs.len() as int, f); isum_mono(0, lo, f);
+}
+
 } // verus!
